@@ -181,17 +181,33 @@ pub fn run_plan(plan: &Plan, replay: Option<Vec<u32>>) -> RunResult {
         .expect("spawn workload thread");
     // watchdog: a workload that makes no scheduling step for several real seconds is
     // spinning (or stuck) without any system call - invisible to the simulated kernel
+    // The measure is CPU time consumed by this process, not wall-clock time: on an overloaded
+    // machine a healthy worker may not be scheduled for seconds, and that must not look like a
+    // busy loop.  (A hang that burns no CPU cannot come from the library - every call it can
+    // block in is simulated - so after two minutes of wall-clock silence it is a harness error.)
+    let cpu_now = || -> f64 {
+        let mut ts: libc::timespec = unsafe { std::mem::zeroed() };
+        unsafe { libc::clock_gettime(libc::CLOCK_PROCESS_CPUTIME_ID, &mut ts) };
+        ts.tv_sec as f64 + ts.tv_nsec as f64 * 1e-9
+    };
     let mut last = PROGRESS.load(std::sync::atomic::Ordering::Relaxed);
     let mut still_since = std::time::Instant::now();
+    let mut cpu_at_progress = cpu_now();
     let mut stuck = false;
+    let mut idle_hang = false;
     while !h.is_finished() {
         std::thread::sleep(std::time::Duration::from_millis(if still_since.elapsed().as_millis() < 50 { 1 } else { 20 }));
         let cur = PROGRESS.load(std::sync::atomic::Ordering::Relaxed);
         if cur != last {
             last = cur;
             still_since = std::time::Instant::now();
-        } else if still_since.elapsed().as_secs_f64() > stuck_after_s() {
+            cpu_at_progress = cpu_now();
+        } else if cpu_now() - cpu_at_progress > stuck_after_s() {
             stuck = true;
+            break;
+        } else if still_since.elapsed().as_secs_f64() > 120.0 {
+            stuck = true;
+            idle_hang = true;
             break;
         }
     }
@@ -201,8 +217,8 @@ pub fn run_plan(plan: &Plan, replay: Option<Vec<u32>>) -> RunResult {
         let label = s.threads.iter().filter_map(|t| t.lib_label.clone()).next().unwrap_or_else(|| "harness".into());
         let in_lib = s.k.in_lib.iter().any(|b| *b);
         let mut rr = RunResult { seed: plan.seed, stuck: true, ..Default::default() };
-        if in_lib {
-            rr.violations.push(Violation { oracle: "spin".into(), signature: format!("spin/no_syscalls/in={}", label), message: format!("the parent made no system call and no progress for {} s of real time inside {} (busy loop or hang outside the kernel); last events: {:?}", stuck_after_s(), label, s.k.log.iter().rev().take(5).map(fmt_event).collect::<Vec<_>>()) });
+        if in_lib && !idle_hang {
+            rr.violations.push(Violation { oracle: "spin".into(), signature: format!("spin/no_syscalls/in={}", label), message: format!("the parent made no system call and no progress while burning {} s of CPU time inside {} (busy loop or hang outside the kernel); last events: {:?}", stuck_after_s(), label, s.k.log.iter().rev().take(5).map(fmt_event).collect::<Vec<_>>()) });
         } else {
             rr.harness_error = Some(format!("workload stuck outside a library call ({})", label));
         }
